@@ -753,3 +753,355 @@ pub fn routing_genome(with_domains: bool) -> impl Strategy<Value = RoutingGenome
         root_fallback,
     })
 }
+
+// ------------------------------------------------------------------------------------------
+// Planted rule violations (C08): exactly one mutation of a rule-abiding application
+// ------------------------------------------------------------------------------------------
+
+pub const RULES: &[&str] = &[
+    "R1-missing-constructor",
+    "R2-dependency-cycle",
+    "R3-singleton-depends-on-request-scoped",
+    "R4-singleton-registered-in-two-blueprints",
+    "R5-runtime-singleton-not-send-sync",
+    "R6-never-clone-singleton-taken-by-value",
+    "R7-mut-ref-to-singleton",
+    "R8-mut-ref-to-transient",
+    "R9-mut-ref-to-clone-if-necessary-request-scoped",
+    "R10-mut-ref-input-on-constructor",
+    "R11-clone-if-necessary-on-non-clone-type",
+    "R12-observer-needs-fallible-constructor",
+    "R13-two-routes-match-the-same-request",
+    "R14-path-param-field-not-in-template",
+];
+
+pub struct Planted {
+    pub spec: AppSpec,
+    pub what: String,
+    pub nontrivial: bool,
+}
+
+/// Components that pavexc must analyse: they sit in the pipeline of at least one route (handler,
+/// middleware chain, error observers), or they are the only error handler registered for an error
+/// that one of those components (or a constructor they need) can return.
+fn registered_comps(spec: &AppSpec) -> Vec<usize> {
+    let mut v: Vec<usize> = vec![];
+    for r in crate::model::routes(spec) {
+        for c in std::iter::once(r.handler).chain(r.chain.iter().copied()).chain(r.observers.iter().copied()) {
+            if !v.contains(&c) {
+                v.push(c);
+            }
+        }
+    }
+    let mut registered = vec![];
+    spec.walk_regs(&mut |r, _| {
+        if let Reg::Comp { idx } = r {
+            registered.push(*idx);
+        }
+    });
+    loop {
+        let mut errs: Vec<usize> = vec![];
+        for c in &v {
+            errs.extend(spec.comps[*c].fallible);
+            for t in crate::model::closure(spec, &spec.comps[*c].inputs) {
+                errs.extend(spec.types[t].fallible);
+            }
+        }
+        let mut grew = false;
+        for e in errs {
+            let hs: Vec<usize> = registered.iter().copied().filter(|c| matches!(spec.comps[*c].kind, CompKind::ErrHandler { err, .. } if err == e)).collect();
+            if hs.len() == 1 && !v.contains(&hs[0]) {
+                v.push(hs[0]);
+                grew = true;
+            }
+        }
+        if !grew {
+            break;
+        }
+    }
+    v
+}
+
+/// Types needed (transitively) by some registered component, with the dependency depth at which
+/// they are first needed (1 = direct input).
+fn needed_types(spec: &AppSpec) -> Vec<(usize, usize)> {
+    let mut depth: std::collections::BTreeMap<usize, usize> = Default::default();
+    let mut frontier: Vec<(usize, usize)> = vec![];
+    for c in registered_comps(spec) {
+        for (t, _) in &spec.comps[c].inputs {
+            frontier.push((*t, 1));
+        }
+    }
+    while let Some((t, d)) = frontier.pop() {
+        if depth.get(&t).is_some_and(|x| *x <= d) {
+            continue;
+        }
+        depth.insert(t, d);
+        for (j, _) in &spec.types[t].inputs {
+            frontier.push((*j, d + 1));
+        }
+    }
+    depth.into_iter().collect()
+}
+
+fn remove_ctor_regs(regs: &mut Vec<Reg>, ty: usize) {
+    regs.retain(|r| !matches!(r, Reg::Ctor { ty: t, .. } if *t == ty));
+    for r in regs.iter_mut() {
+        if let Reg::Nest { bp, .. } = r {
+            remove_ctor_regs(bp, ty);
+        }
+    }
+}
+
+fn depends_on(spec: &AppSpec, a: usize, b: usize) -> bool {
+    crate::model::closure(spec, &spec.types[a].inputs).contains(&b)
+}
+
+pub fn plant(base: &AppSpec, rule: usize, raw: u16) -> Option<Planted> {
+    let mut spec = base.clone();
+    let needed = needed_types(&spec);
+    let comps = registered_comps(&spec);
+    let choose = |n: usize| pick(raw, n);
+    let name = RULES[rule % RULES.len()];
+    let mut nontrivial = false;
+    let what: String;
+    match rule % RULES.len() {
+        0 => {
+            if needed.is_empty() {
+                return None;
+            }
+            let (t, d) = needed[choose(needed.len())];
+            remove_ctor_regs(&mut spec.bp, t);
+            nontrivial = d >= 2;
+            what = format!("removed every registration of the constructor of T{t} (needed at dependency depth {d})");
+        }
+        1 => {
+            // j depends on i (i < j): make i depend on j as well
+            let pairs: Vec<(usize, usize)> = needed
+                .iter()
+                .flat_map(|(j, _)| spec.types[*j].inputs.iter().map(move |(i, _)| (*i, *j)))
+                .filter(|(i, j)| {
+                    let (a, b) = (&spec.types[*i], &spec.types[*j]);
+                    (a.life == Life::Singleton) == (b.life == Life::Singleton)
+                })
+                .collect();
+            if pairs.is_empty() {
+                return None;
+            }
+            let (i, j) = pairs[choose(pairs.len())];
+            spec.types[i].inputs.push((j, Mode::Ref));
+            nontrivial = needed.iter().find(|(t, _)| *t == j).is_some_and(|(_, d)| *d >= 2);
+            what = format!("T{i} now also needs &T{j}, which needs T{i}: a dependency cycle");
+        }
+        2 => {
+            let singles: Vec<usize> = needed.iter().map(|(t, _)| *t).filter(|t| spec.types[*t].life == Life::Singleton).collect();
+            let reqs: Vec<usize> = (0..spec.types.len()).filter(|t| spec.types[*t].life == Life::Request && spec.types[*t].variants == 1).collect();
+            let mut pairs = vec![];
+            for s in &singles {
+                for r in &reqs {
+                    if !depends_on(&spec, *r, *s) {
+                        pairs.push((*s, *r));
+                    }
+                }
+            }
+            if pairs.is_empty() {
+                return None;
+            }
+            let (s, r) = pairs[choose(pairs.len())];
+            spec.types[s].inputs.push((r, Mode::Ref));
+            nontrivial = needed.iter().find(|(t, _)| *t == s).is_some_and(|(_, d)| *d >= 2);
+            what = format!("singleton T{s} now takes the request-scoped &T{r}");
+        }
+        3 => {
+            let singles: Vec<usize> = needed.iter().map(|(t, _)| *t).filter(|t| spec.types[*t].life == Life::Singleton).collect();
+            if singles.is_empty() {
+                return None;
+            }
+            let s = singles[choose(singles.len())];
+            // register it again inside a nested blueprint that holds a route
+            fn first_nest(regs: &mut Vec<Reg>) -> Option<&mut Vec<Reg>> {
+                for r in regs.iter_mut() {
+                    if let Reg::Nest { bp, .. } = r {
+                        return Some(bp);
+                    }
+                }
+                None
+            }
+            if first_nest(&mut spec.bp).is_none() {
+                // wrap the last route into a nest
+                let pos = spec.bp.iter().rposition(|r| matches!(r, Reg::Comp { idx } if spec.comps[*idx].kind == CompKind::Handler))?;
+                let r = spec.bp.remove(pos);
+                spec.bp.push(Reg::Nest { prefix: Some("/planted".into()), domain: None, bp: vec![r] });
+            }
+            let nb = first_nest(&mut spec.bp)?;
+            nb.insert(0, Reg::Ctor { ty: s, variant: 0 });
+            nontrivial = true;
+            what = format!("singleton T{s} is registered in the root blueprint and again in a nested blueprint");
+        }
+        4 => {
+            // only singletons that live in the application state: direct inputs of request-time
+            // components or of non-singleton constructors
+            let mut runtime: Vec<usize> = comps.iter().flat_map(|c| spec.comps[*c].inputs.iter().map(|(t, _)| *t)).collect();
+            for (t, _) in &needed {
+                if spec.types[*t].life != Life::Singleton {
+                    runtime.extend(spec.types[*t].inputs.iter().map(|(j, _)| *j));
+                }
+            }
+            let singles: Vec<usize> = needed.iter().map(|(t, _)| *t).filter(|t| runtime.contains(t) && spec.types[*t].life == Life::Singleton && !spec.types[*t].is_copy).collect();
+            if singles.is_empty() {
+                return None;
+            }
+            let s = singles[choose(singles.len())];
+            spec.types[s].send_sync = false;
+            nontrivial = needed.iter().find(|(t, _)| *t == s).is_some_and(|(_, d)| *d >= 2);
+            what = format!("singleton T{s} (needed while serving requests) is no longer Send + Sync");
+        }
+        5 | 6 | 7 | 8 => {
+            // change how one request-time component takes a value
+            let want = |t: &TypeSpec| match rule % RULES.len() {
+                5 => t.life == Life::Singleton && !t.is_copy && t.clone_if_necessary != Some(true),
+                6 => t.life == Life::Singleton,
+                7 => t.life == Life::Transient,
+                _ => t.life == Life::Request && t.clone_if_necessary == Some(true) && !t.is_copy,
+            };
+            let mut sites = vec![];
+            for c in &comps {
+                if !matches!(spec.comps[*c].kind, CompKind::Handler | CompKind::Pre | CompKind::Post) {
+                    continue;
+                }
+                for (ii, (t, m)) in spec.comps[*c].inputs.iter().enumerate() {
+                    if want(&spec.types[*t]) && *m == Mode::Ref {
+                        sites.push((*c, ii, *t));
+                    }
+                }
+            }
+            if sites.is_empty() {
+                // no component takes such a value yet: give one to a handler (only types whose
+                // constructor is registered in the root blueprint, so that it is in scope)
+                let root_visible: Vec<usize> = spec.bp.iter().filter_map(|r| if let Reg::Ctor { ty, .. } = r { Some(*ty) } else { None }).collect();
+                let mut adds = vec![];
+                for c in &comps {
+                    if spec.comps[*c].kind != CompKind::Handler {
+                        continue;
+                    }
+                    for t in &root_visible {
+                        if want(&spec.types[*t]) && !spec.comps[*c].inputs.iter().any(|(x, _)| x == t) && !adds.contains(&(*c, *t)) {
+                            adds.push((*c, *t));
+                        }
+                    }
+                }
+                if adds.is_empty() {
+                    return None;
+                }
+                let (c, t) = adds[choose(adds.len())];
+                spec.comps[c].inputs.push((t, Mode::Ref));
+                sites.push((c, spec.comps[c].inputs.len() - 1, t));
+            }
+            let (c, ii, t) = sites[choose(sites.len())];
+            spec.comps[c].inputs[ii].1 = if rule % RULES.len() == 5 { Mode::Move } else { Mode::Mut };
+            nontrivial = !matches!(spec.comps[c].kind, CompKind::Handler);
+            what = format!("component x{c} now takes T{t} as {:?}", spec.comps[c].inputs[ii].1);
+        }
+        9 => {
+            let cands: Vec<(usize, usize)> = needed
+                .iter()
+                .flat_map(|(t, _)| spec.types[*t].inputs.iter().enumerate().filter(|(_, (_, m))| *m == Mode::Ref).map(move |(ii, _)| (*t, ii)))
+                .collect();
+            if cands.is_empty() {
+                return None;
+            }
+            let (t, ii) = cands[choose(cands.len())];
+            spec.types[t].inputs[ii].1 = Mode::Mut;
+            nontrivial = needed.iter().find(|(x, _)| *x == t).is_some_and(|(_, d)| *d >= 2);
+            what = format!("the constructor of T{t} now takes a `&mut` input");
+        }
+        10 => {
+            let cands: Vec<usize> = needed.iter().map(|(t, _)| *t).filter(|t| !spec.types[*t].is_clone && !spec.types[*t].is_copy && spec.types[*t].clone_if_necessary == Some(false)).collect();
+            if cands.is_empty() {
+                return None;
+            }
+            let t = cands[choose(cands.len())];
+            spec.types[t].clone_if_necessary = Some(true);
+            nontrivial = needed.iter().find(|(x, _)| *x == t).is_some_and(|(_, d)| *d >= 2);
+            what = format!("T{t} is registered clone-if-necessary but does not implement Clone");
+        }
+        11 => {
+            let obs: Vec<usize> = comps.iter().copied().filter(|c| spec.comps[*c].kind == CompKind::Observer).collect();
+            let fall: Vec<usize> = (0..spec.types.len())
+                .filter(|t| spec.types[*t].variants == 1 && (spec.types[*t].fallible.is_some() || crate::model::closure(&spec, &spec.types[*t].inputs).iter().any(|u| spec.types[*u].fallible.is_some())))
+                .filter(|t| spec.types[*t].life != Life::Singleton)
+                .collect();
+            if obs.is_empty() || fall.is_empty() {
+                return None;
+            }
+            let o = obs[choose(obs.len())];
+            let t = fall[(raw as usize / 7) % fall.len()];
+            // only by reference, and only borrow-safe (the value may be move-once elsewhere: use a
+            // type that nobody moves)
+            let moved = |t: usize| spec.comps.iter().any(|c| c.inputs.iter().any(|(x, m)| *x == t && *m == Mode::Move)) || spec.types.iter().any(|ty| ty.inputs.iter().any(|(x, m)| *x == t && *m == Mode::Move));
+            let t = if moved(t) { fall.iter().copied().find(|x| !moved(*x))? } else { t };
+            spec.comps[o].inputs.push((t, Mode::Ref));
+            nontrivial = spec.types[t].fallible.is_none();
+            what = format!("error observer x{o} now needs &T{t}, whose construction can fail ({})", if spec.types[t].fallible.is_some() { "directly" } else { "transitively" });
+        }
+        12 => {
+            let hs: Vec<usize> = comps.iter().copied().filter(|c| spec.comps[*c].kind == CompKind::Handler).collect();
+            if hs.is_empty() {
+                return None;
+            }
+            let h = hs[choose(hs.len())];
+            // a twin handler with the same path and an overlapping method, registered right after
+            let mut twin = spec.comps[h].clone();
+            twin.inputs.clear();
+            twin.fallible = None;
+            if let Some(r) = twin.route.as_mut() {
+                if raw % 2 == 0 && !r.methods.is_empty() {
+                    r.methods = vec![r.methods[0].clone()];
+                } else {
+                    r.methods = vec![]; // ANY vs specific
+                }
+            }
+            let idx = spec.comps.len();
+            spec.comps.push(twin);
+            fn insert_after(regs: &mut Vec<Reg>, h: usize, idx: usize) -> bool {
+                for i in 0..regs.len() {
+                    match &mut regs[i] {
+                        Reg::Comp { idx: c } if *c == h => {
+                            regs.insert(i + 1, Reg::Comp { idx });
+                            return true;
+                        }
+                        Reg::Nest { bp, .. } => {
+                            if insert_after(bp, h, idx) {
+                                return true;
+                            }
+                        }
+                        _ => {}
+                    }
+                }
+                false
+            }
+            insert_after(&mut spec.bp, h, idx);
+            nontrivial = crate::model::routes(&spec).iter().any(|r| r.handler == h && r.nest_depth >= 1);
+            what = format!("a second handler x{idx} answers the same path as x{h} with an overlapping method guard");
+        }
+        _ => {
+            let hs: Vec<usize> = comps.iter().copied().filter(|c| spec.comps[*c].kind == CompKind::Handler).collect();
+            if hs.is_empty() {
+                return None;
+            }
+            let h = hs[choose(hs.len())];
+            let r = spec.comps[h].route.as_mut()?;
+            if raw % 3 != 0 && !r.path.contains('{') {
+                // a template with one parameter; the struct asks for that one and for another
+                r.path = format!("{}/{{pid}}", r.path.trim_end_matches('/'));
+                r.path_param_fields = vec!["pid".into(), "not_in_template".into()];
+            } else {
+                r.path_param_fields = vec!["not_in_template".into()];
+            }
+            nontrivial = crate::model::routes(&spec).iter().any(|r| r.handler == h && r.nest_depth >= 1);
+            what = format!("handler x{h} asks for PathParams with a field that is not in its route template");
+        }
+    }
+    spec.note = format!("planted {name}: {what}");
+    Some(Planted { spec, what: format!("{name}: {what}"), nontrivial })
+}
